@@ -379,6 +379,47 @@ pub fn run(ctx: &Ctx) -> Result<(), String> {
             return Err("server did not start with an ignored signal inherited".into());
         }
     }
+    // the signal delivered to a WORKER thread (kill -TERM <tid>; which thread the kernel picks for a
+    // process-directed signal is its choice), and delivered while the process is stopped (sampled)
+    for (how, sig) in [("worker-thread", libc::SIGTERM), ("worker-thread", libc::SIGINT), ("stopped-then-continued", libc::SIGTERM), ("stopped-then-continued", libc::SIGINT)] {
+        let (mut sp, _port) = crate::proc::start_serving(
+            &|port| {
+                let mut w = Written::base(port);
+                w.set("num_workers", "3");
+                w
+            },
+            Source::File,
+            3,
+            Duration::from_secs(20),
+        )?;
+        std::thread::sleep(Duration::from_millis(150));
+        let t0 = Instant::now();
+        let mut target = String::new();
+        if how == "worker-thread" {
+            match sp.tid_of("worker-1") {
+                Some(tid) => {
+                    target = format!("worker-1 (tid {})", tid);
+                    sp.signal_thread(tid, sig);
+                }
+                None => sp.signal(sig),
+            }
+        } else {
+            sp.signal(libc::SIGSTOP);
+            std::thread::sleep(Duration::from_millis(50));
+            sp.signal(sig);
+            std::thread::sleep(Duration::from_millis(50));
+            sp.signal(libc::SIGCONT);
+        }
+        let ex = sp.wait_exit(Duration::from_secs(10));
+        let secs = t0.elapsed().as_secs_f64();
+        let se = sp.stderr();
+        sampled.push(json!({"num_workers":3,"delivery":how,"target":target,"signal":if sig == libc::SIGINT {"INT"} else {"TERM"},"exit":format!("{:?}", ex.map(|e| (e.0, e.1))),"seconds":(secs * 1000.0).round() / 1000.0}));
+        if !(matches!(ex, Some((Some(0), _, _))) && secs <= 5.0 && !se.contains("panicked")) {
+            ctx.violation("wall-clock-shutdown", if ex.is_none() { "no-exit-10s" } else { "unclean" }, &format!("signal-delivery/{}", how),
+                json!({"kind":"wallclock-delivery","delivery":how,"signal":sig,"exit":format!("{:?}", ex),"seconds":secs,"stderr":se.lines().filter(|l| l.contains("panicked")).take(2).collect::<Vec<_>>()}));
+        }
+        sp.kill();
+    }
     // two signals a short while apart (sampled)
     for (stats, gap_ms, s1, s2) in [(false, 15u64, libc::SIGINT, libc::SIGTERM), (true, 250, libc::SIGTERM, libc::SIGINT), (false, 40, libc::SIGTERM, libc::SIGTERM)] {
         let dir = crate::proc::scratch_dir();
